@@ -81,7 +81,11 @@ func genRTCase(t *rapid.T) (*RTCase, bool) {
 			r.Val, r.HasVal = v, true
 			nt = nt || (qc && n >= 2)
 		}
-		switch rapid.IntRange(0, 8).Draw(t, "msgKind") {
+		switch rapid.IntRange(0, 9).Draw(t, "msgKind") {
+		case 9:
+			// a long ASCII text followed by CJK: the label follows the whole message, however long
+			n := rapid.SampledFrom([]int{60, 250, 254, 255, 256, 257, 1000}).Draw(t, "asciiPrefix")
+			r.Msg, r.HasMsg = strings.Repeat("developer text ", n/15+1)[:n]+rapid.SampledFrom([]string{"测", "请输入", "长"}).Draw(t, "cjkTail"), true
 		case 7:
 			// a message that itself begins with (or contains) an explanation label: it is just text
 			r.Msg, r.HasMsg = rapid.SampledFrom([]string{"explain:", "说明:", "explain: ", "see explain:", "说明:必填"}).Draw(t, "labelText")+genText(t, c14MsgRunes, 0, 4, "m"), true
